@@ -1584,7 +1584,11 @@ class Events(TimeInterface):
         newdata = dict()
         newtime = self.time[key].reshape(-1)
         sl = key
-        if isinstance(key, float):
+        if isinstance(key, (int, np.integer)):
+            # keep the event axis, so that per-event data of any dimension
+            # stay aligned with the one selected time
+            sl = [key]
+        elif isinstance(key, float):
             sl = self.time.index_at(key)
         elif isinstance(key, Epochs):
             sl = self.time.slice_during(key)
